@@ -83,6 +83,28 @@ pub fn generate(seed: u64, tier: &str, sink: &mut Sink) {
             let (ns, name) = read_schedule(&mut rng, payload_len, pieces(&spec, segs.len(), max_buf));
             (Reads::Sizes(ns), name)
         };
+        // "whatever sequence of reads": one case in eight has a read that fails with a transient transport
+        // error (a read timeout and the like) somewhere in the body, after which the rest arrives and the
+        // caller goes on reading; what is handed out must still be a prefix of the payload, never more
+        let transient = matches!(reads, Reads::Sizes(_)) && wire.len() > head_len && rng.chance(1, 8);
+        if transient {
+            let p = head_len + rng.below((wire.len() - head_len) as u64) as usize;
+            let k = *rng.pick(&[1u8, 2, 2, 3]);
+            let segs2 = crate::p_c02::splice(&segs, p, Some(crate::script::Seg::Err(k)), false);
+            let m = crate::p_c02::Mutated { kind: "ioerr-resume", arrived: crate::p_c02::flat(&segs2), segs: segs2.clone(), err_at: Some((p, k)) };
+            let mut ns = match &reads { Reads::Sizes(ns) => ns.clone(), _ => vec![] };
+            ns.extend_from_slice(&[1 << 16, 7, 1 << 16, 1 << 16]);
+            let case = RespCase { method: "GET".into(), max_headers: 100, segs: segs2, reads: Reads::Sizes(ns) };
+            let out = run_resp(&case);
+            let o = crate::p_c02::oracle(&spec, &m, head_len, &case, &out, crate::consts().chunk_size_line_limit);
+            sink.push(Case {
+                tags: vec![format!("framing={}", spec.framing_name()), format!("seg={}", segname), "reads=after-transient-error".to_string()],
+                op: case.op_line(),
+                impl_line: out.line(),
+                oracle: o,
+            });
+            continue;
+        }
         let case = RespCase { method: "GET".into(), max_headers: 100, segs, reads };
         let out = run_resp(&case);
         let o = oracle(&spec, &case, &out);
